@@ -25,6 +25,18 @@ def sh(cmd, cwd=None, env=None, timeout=1500):
     return r.returncode, r.stdout + r.stderr
 
 
+def apply_patch(wt, patch):
+    """git apply; if the tree moved on since the patch was made (later fix commits), fall back to a
+    3-way merge using the blob ids recorded in the patch."""
+    rc, o = sh(f"git -C {wt} apply {patch}")
+    if rc:
+        rc, o2 = sh(f"git -C {wt} apply --3way {patch}")
+        o += o2
+        if not rc:
+            sh(f"git -C {wt} reset -q")
+    return rc, o
+
+
 def main(argv):
     tier = "thorough" if "--thorough" in argv else "quick"
     only = argv[argv.index("--only") + 1:] if "--only" in argv else []
@@ -45,7 +57,7 @@ def main(argv):
         res = {}
         try:
             sh(f"git -C /repo worktree add -q --detach {wt} HEAD")
-            rc, o = sh(f"git -C {wt} apply {os.path.join(root, rid, 'patch.diff')}")
+            rc, o = apply_patch(wt, os.path.join(root, rid, 'patch.diff'))
             if rc:
                 res["apply"] = "FAILED " + o[-200:]
                 results[rid] = res
